@@ -61,6 +61,11 @@ func main() {
 		os.Exit(c.Finish())
 	case "race":
 		os.Exit(raceMain(os.Args[2:]))
+	case "shrink":
+		if len(os.Args) < 3 {
+			os.Exit(2)
+		}
+		os.Exit(shrinkMain(os.Args[2]))
 	case "replay":
 		if len(os.Args) < 3 {
 			os.Exit(2)
